@@ -287,6 +287,9 @@ fn execute_caught<S: Sim>(sim: &S, sc: &S::Scenario, ctx: &ExecCtx<'_>) -> Outco
 // Shrinker (delta debugging on the scenario data, same oracle rule must keep firing)
 // ------------------------------------------------------------------------------------------------
 
+/// How many runs before a violating one are replayed as its possible process history.
+const HISTORY_WINDOW: u64 = 600;
+
 pub fn shrink<S: Sim>(
     sim: &S,
     sc: S::Scenario,
@@ -641,16 +644,82 @@ pub fn run_batch<S: Sim>(sim: &S, opts: &Opts) -> BatchReport {
                 _ => None,
             }
         };
+        let mut history: Vec<S::Scenario> = Vec::new();
         let (min_sc, r1, minimised) = match fresh_pair(&min_sc).filter(|r| r.violation.as_ref().is_some_and(|x| x.rule == v.rule)) {
             Some(r) => (min_sc, r, true),
             None => match fresh_pair(sc) {
                 Some(r) => (sc.clone(), r, false),
                 None => {
-                    // try the next run that broke the same rule
-                    let _ = std::fs::remove_file(&cand);
-                    let e = unreproduced.entry(v.rule.clone()).or_insert((0, *i));
-                    e.0 += 1;
-                    continue;
+                    // Not reproducible on its own. Does it lean on what earlier simulations left behind
+                    // in this process (a process-wide static in the code under test)? Execute the runs
+                    // before it in a fresh process, in order, then the scenario; if that breaks the
+                    // same rule, minimise the history (ddmin) and report the sequence.
+                    let first = i.saturating_sub(HISTORY_WINDOW);
+                    let mut hist: Vec<S::Scenario> = (first..*i)
+                        .map(|j| {
+                            let mut rng = Rng::new(mix(opts.seed, j));
+                            sim.plan(&mut rng, sim.sub_batch_of(j))
+                        })
+                        .collect();
+                    let breaks = |h: &[S::Scenario]| -> Option<FreshResult> {
+                        fresh_exec_after(sim, h, sc, &cand, &opts.verif_dir).filter(|r| r.violation.as_ref().is_some_and(|x| x.rule == v.rule))
+                    };
+                    match breaks(&hist) {
+                        Some(_) => {
+                            let mut chunk = (hist.len() / 2).max(1);
+                            let mut budget = 400usize;
+                            loop {
+                                let mut k = 0usize;
+                                let mut removed = false;
+                                while k < hist.len() && budget > 0 {
+                                    let to = (k + chunk).min(hist.len());
+                                    let mut c = hist.clone();
+                                    c.drain(k..to);
+                                    budget -= 1;
+                                    if breaks(&c).is_some() {
+                                        hist = c;
+                                        removed = true;
+                                    } else {
+                                        k = to;
+                                    }
+                                }
+                                if budget == 0 || (chunk == 1 && !removed) {
+                                    break;
+                                }
+                                if !removed {
+                                    chunk = (chunk / 2).max(1);
+                                }
+                            }
+                            // twice, identically
+                            match (breaks(&hist), breaks(&hist)) {
+                                (Some(a), Some(b)) if a.violation == b.violation && a.log_hash == b.log_hash => {
+                                    let mut a = a;
+                                    if let Some(x) = a.violation.as_mut() {
+                                        x.detail = format!(
+                                            "{} [only after {} earlier simulation(s) in the same process: the code under test keeps state across independent runs; the replay file lists them under \"history\"]",
+                                            x.detail,
+                                            hist.len()
+                                        );
+                                    }
+                                    history = hist;
+                                    (sc.clone(), a, false)
+                                }
+                                _ => {
+                                    let _ = std::fs::remove_file(&cand);
+                                    let e = unreproduced.entry(v.rule.clone()).or_insert((0, *i));
+                                    e.0 += 1;
+                                    continue;
+                                }
+                            }
+                        }
+                        None => {
+                            // try the next run that broke the same rule
+                            let _ = std::fs::remove_file(&cand);
+                            let e = unreproduced.entry(v.rule.clone()).or_insert((0, *i));
+                            e.0 += 1;
+                            continue;
+                        }
+                    }
                 }
             },
         };
@@ -679,6 +748,7 @@ pub fn run_batch<S: Sim>(sim: &S, opts: &Opts) -> BatchReport {
             "minimised": minimised,
             "log_hash": r1.log_hash,
             "scenario": min_sc,
+            "history": history,
             "log": r1.log,
         });
         if let Err(e) = std::fs::write(&path, serde_json::to_string_pretty(&file).unwrap()) {
@@ -858,6 +928,10 @@ pub fn replay<S: Sim>(sim: &S, file: &Value, verif_dir: &str) -> i32 {
         known: &known_keys,
         keep_log: true,
     };
+    let n_hist = run_history(sim, file, &ctx);
+    if n_hist > 0 {
+        println!("  (executed {n_hist} earlier scenario(s) of the recorded history in this process first)");
+    }
     let out = execute_caught(sim, &sc, &ctx);
     for l in &out.log {
         println!("  {l}");
@@ -1040,14 +1114,35 @@ pub fn fresh_child<S: Sim>(sim: &S, file: &Value, verif_dir: &str) -> i32 {
         }
     };
     let ctx = ExecCtx { known: &known_keys, keep_log: true };
+    run_history(sim, file, &ctx);
     let out = execute_caught(sim, &sc, &ctx);
     let r = FreshResult { violation: out.violation, log_hash: out.log_hash, log: out.log };
     println!("FRESH {}", serde_json::to_string(&r).unwrap());
     0
 }
 
+/// Scenarios a replay file lists under "history" are executed first, in order, in the same process
+/// (their outcomes are not judged): the earlier life of the process, for code under test that keeps
+/// state in process-wide statics.
+fn run_history<S: Sim>(sim: &S, file: &Value, ctx: &ExecCtx<'_>) -> usize {
+    let mut n = 0;
+    if let Some(items) = file.get("history").and_then(Value::as_array) {
+        for it in items {
+            if let Ok(h) = serde_json::from_value::<S::Scenario>(it.clone()) {
+                let _ = execute_caught(sim, &h, ctx);
+                n += 1;
+            }
+        }
+    }
+    n
+}
+
 fn fresh_exec<S: Sim>(sim: &S, sc: &S::Scenario, path: &str, verif_dir: &str) -> Option<FreshResult> {
-    let file = json!({"property": sim.property(), "scenario": sc});
+    fresh_exec_after(sim, &[], sc, path, verif_dir)
+}
+
+fn fresh_exec_after<S: Sim>(sim: &S, history: &[S::Scenario], sc: &S::Scenario, path: &str, verif_dir: &str) -> Option<FreshResult> {
+    let file = json!({"property": sim.property(), "scenario": sc, "history": history});
     std::fs::write(path, serde_json::to_string(&file).ok()?).ok()?;
     let exe = std::env::current_exe().ok()?;
     let out = std::process::Command::new(exe).args(["fresh", path, "--verif-dir", verif_dir]).output().ok()?;
